@@ -44,9 +44,10 @@ const (
 	nSame            // one IDL function carrying all annotations
 	nSegment         // named after the last path segment: handler name = a group name after mangling
 	nCase            // Abc, AbC, Abc0, AbC0: equal after lower-casing (but distinct handler file names), explicit digit suffixes
+	nFile            // PingTest, ListWindows, GetArm64, PushIos: snake-cased they end in a suffix the go tool gives a meaning (_test, _GOOS, _GOARCH)
 )
 
-var schemeName = []string{"distinct", "same", "segment", "case-digit"}
+var schemeName = []string{"distinct", "same", "segment", "case-digit", "file-suffix"}
 
 func segmentName(p string) string {
 	segs := strings.Split(strings.Trim(p, "/"), "/")
@@ -67,6 +68,8 @@ func nameFor(scheme, i int, p string) string {
 		return segmentName(p)
 	case nCase:
 		return []string{"Abc", "AbC", "Abc0", "AbC0"}[i%4]
+	case nFile:
+		return []string{"PingTest", "ListWindows", "GetArm64", "PushIos"}[i%4]
 	}
 	return fmt.Sprintf("H%d", i+1)
 }
@@ -167,6 +170,9 @@ func families(thorough bool) []*family {
 	allVerbs := []string{"GET", "POST", "ANY"}
 	small := cross(getPost, pathsOver(alphaStruct, 2, false, true)) // 7 paths x {GET,POST}
 	deep := cross(get, []string{"/a", "/a/b", "/a/b/a", "/a/b/b", "/a/a/a", "/b/b/a", "/a/b/a/"})
+	// the empty service (no HTTP-annotated method) and handler names that turn into special file names
+	fs = append(fs, &family{name: "the empty route set x 8 option sets", lists: [][]pv{{}}, names: []int{nDistinct}, opts: all8})
+	add("pairs, handler names with go-tool file suffixes, structure alphabet, depth<=2, root", small, 2, []int{nFile}, all8)
 	if !thorough {
 		add("singles, collision alphabet, depth<=2, trailing-slash variants, root", cross([]string{"GET", "ANY"}, pathsOver(alphaCollision, 2, true, true)), 1, []int{nSegment}, all8)
 		add("pairs, structure alphabet, depth<=2, trailing-slash variants, root", cross(allVerbs, pathsOver(alphaStruct, 2, true, true)), 2, []int{nDistinct}, all8)
